@@ -677,7 +677,7 @@ func TestC04(t *testing.T) {
 	}
 	// process death at every physical write of a flush (c04sys_test.go)
 	scfg := Cfg
-	scfg.Checks = 2
+	scfg.Checks = 1
 	if Cfg.Tier == "thorough" {
 		scfg.Checks = 8
 	}
